@@ -66,7 +66,7 @@ def main(argv=None):
     for s in shards:
         s.setdefault("import_first", int(engine.khash([str(s.get("id"))]), 16) % 3 == 0)
     results, errors, capped = [], [], 0
-    nwork = max(1, min(args.workers, len(shards)))
+    nwork = max(1, min(args.workers, len(shards), int(getattr(drv, "WORKERS", {}).get(args.tier, 10 ** 6))))  # a driver may cap its own parallelism (memory)
     ctxmp = mp.get_context("spawn")
     if only is not None:
         if shards[0].get("import_first"):
